@@ -707,8 +707,12 @@ def _get_reference_activated_flow_instance(
             matched |= (
                 arg.name not in event.arguments
                 and f"${idx}" not in event.arguments
-                and arg.default_value_expr is not None
-                and val == eval_expression(arg.default_value_expr, {})
+                and val
+                == (
+                    eval_expression(arg.default_value_expr, {})
+                    if arg.default_value_expr is not None
+                    else None
+                )
             )
 
             if not matched:
